@@ -159,7 +159,14 @@ def run_case(case, ctx):
     limit = case['limit']
     if case.get('fn') == 'nona':
         edge = case.get('edge')
-        st, res = ctx.call(nona, x, edge=edge) if edge is not None else ctx.call(nona, x)
+        if case.get('nan_value') and edge is None:
+            # the value to drop spelt out: a NaN is a NaN whichever object carries it
+            import math
+            nv = {'float': float('nan'), 'math': math.nan, 'np64': np.float64('nan'), 'computed': float('inf') - float('inf'), 'npnan': np.nan}[case['nan_value']]
+            st, res = ctx.call(nona, x, nv) if case.get('positional') else ctx.call(nona, x, value=nv)
+            ctx.cls('nona:value_given_as_%s' % case['nan_value'])
+        else:
+            st, res = ctx.call(nona, x, edge=edge) if edge is not None else ctx.call(nona, x)
         n = len(cols[0])
         allnan = [all(isn(c[i]) for c in cols) for i in range(n)]
         good = [i for i in range(n) if not allnan[i]]
@@ -181,7 +188,11 @@ def run_case(case, ctx):
         ctx.check('nona_model', ok, lambda: 'nona(%s %r, edge=%r) = %s %r ; model keeps rows %r' % (case['kind'], case['cols'], edge, st, res, keep))
     else:
         lim_arg = np.int64(limit) if (limit is not None and case.get('np_limit')) else limit
-        st, res = ctx.call(df_fillna, x, method, 0, lim_arg) if case.get('positional') else ctx.call(df_fillna, x, method=method, limit=lim_arg)
+        m_arg = method
+        if case.get('alias_backfill'):
+            m_arg = 'backfill' if method == 'bfill' else ['backfill' if m_ == 'bfill' else m_ for m_ in method] if isinstance(method, list) else method      # pandas' other name for bfill
+            ctx.cls('method_spelt_backfill')
+        st, res = ctx.call(df_fillna, x, m_arg, 0, lim_arg) if case.get('positional') else ctx.call(df_fillna, x, method=m_arg, limit=lim_arg)
         exp, keep = cols, list(range(len(cols[0])))
         for m in methods:
             exp, k2 = m_apply(exp, m, limit)
@@ -261,6 +272,9 @@ def gen_random(rng):
                 if rng.random() < 0.6:
                     dcur += 1
             c_['days'] = days
+        if c_['edge'] is None and rng.random() < 0.3:
+            c_['nan_value'] = rng.choice(['float', 'math', 'np64', 'computed', 'npnan'])
+            c_['positional'] = rng.random() < 0.5
         return c_
     if rng.random() < 0.3:
         method = rng.choice(LISTS)
@@ -279,6 +293,8 @@ def gen_random(rng):
         case['dupcols'] = True
     if limit is not None and rng.random() < 0.25:
         case['np_limit'] = True
+    if 'bfill' in (method if isinstance(method, list) else [method]) and rng.random() < 0.3:
+        case['alias_backfill'] = True
     if rng.random() < 0.2:
         # +-inf are ordinary non-NaN cells: never filled, never changed
         for c in cols:
